@@ -1082,6 +1082,43 @@ mut("wrap-rawatomic-cas-swapped", "break", ["C17", "C18"], "RawAtomic::compare_e
             .map(RawShared::from)""", """        self.inner
             .compare_exchange(new.inner, current.inner, success, failure)
             .map(RawShared::from)""")], ["WRAP-ATOMICS"])
+mut("wrap-fetch-or-mask-of-wrapper", "break", ["C18", "C17"], "RawAtomic::fetch_or masks the tag with the low bits of the WRAPPER type (low_bits::<Tagged<T>>), not of the pointee",
+    [ed(PT, "let prev = inner.fetch_or(low_bits::<T>() & tag, order);", "let prev = inner.fetch_or(low_bits::<Tagged<T>>() & tag, order);")], ["WRAP-ATOMICS"])
+mut("wrap-fetch-or-unmasked", "break", ["C18", "C17"], "RawAtomic::fetch_or ors the tag in unmasked (address bits can be set)",
+    [ed(PT, "let prev = inner.fetch_or(low_bits::<T>() & tag, order);", "let prev = inner.fetch_or(tag, order);")], ["WRAP-ATOMICS"])
+DFT = "src/ebr_impl/default.rs"
+OL = "src/ebr_impl/sync/once_lock.rs"
+mut("ok-collector-std-oncelock", "benign", [], "collector() keeps the default collector in std::sync::OnceLock",
+    [ed(DFT, "use super::sync::once_lock::OnceLock;", "use std::sync::OnceLock;")])
+mut("wrap-collector-local-once", "break", ["C18", "C13"], "OnceLock::initialize runs the initializer under a fresh Once (a local, not the cell's)",
+    [ed(OL, "self.once.call_once(|| {", "Once::new().call_once(|| {")], ["EBR-DEFAULT-COLLECTOR"])
+mut("wrap-collector-init-unguarded-fast", "break", ["C18", "C13"], "get_or_init initialises directly when the cell looks empty, before reaching the Once",
+    [ed(OL, """        self.initialize(f);
+
+        debug_assert!(self.is_initialized());""", """        unsafe { self.value.get().cast::<T>().write(f()) };
+        self.is_initialized.store(true, Ordering::Release);
+
+        debug_assert!(self.is_initialized());""")], ["EBR-DEFAULT-COLLECTOR"])
+mut("ok-try-destruct-mark-merged", "benign", [], "try_destruct's mark re-writes the stamp it observed (with_epoch(old.epoch())): no fresh epoch",
+    [ed(U, """                old.with_destructed(true).as_raw(),
+                Ordering::SeqCst,
+                Ordering::SeqCst,
+            ) {
+                // Note that `decrement_weak` will be called in `dispose`.""", """                old.with_destructed(true).with_epoch(old.epoch() as _).as_raw(),
+                Ordering::SeqCst,
+                Ordering::SeqCst,
+            ) {
+                // Note that `decrement_weak` will be called in `dispose`.""")])
+mut("rec-dgn-mark-stamps-now", "break", ["C06"], "the marking loop of the cascade stamps the current epoch with the DESTRUCTED flag",
+    [ed(U, """                    old.with_destructed(true).as_raw(),
+                    Ordering::SeqCst,
+                    Ordering::SeqCst,
+                ) {
+                    Ok(_) => break,""", """                    old.with_destructed(true).with_epoch(global_epoch()).as_raw(),
+                    Ordering::SeqCst,
+                    Ordering::SeqCst,
+                ) {
+                    Ok(_) => break,""")], ["REC-IMMEDIATE"])
 mut("wrap-atomicepoch-cas-always-ok", "break", ["C13", "C14"], "AtomicEpoch::compare_exchange reports Ok on failure",
     [ed(EPF, "Err(data) => Err(Epoch { data }),", "Err(data) => Ok(Epoch { data }),")], ["WRAP-ATOMICS"])
 mut("wrap-defer-none-runs-now", "break", ["C01", "C02", "C13"], "Option<&Guard>::defer_with_inner runs f at once when no guard is given",
